@@ -163,6 +163,26 @@ func argVectors(sh *shape, b boundsA, emit func(args string)) {
 		for _, t := range tails {
 			emit(strings.Join(append(append([]string(nil), pos...), t...), ","))
 		}
+		// (d) one positional argument is an explicit nil (a supplied nil is a value, not an absent argument)
+		for j := 0; j < p; j++ {
+			np := append([]string(nil), pos...)
+			np[j] = "n"
+			tl := [][]string{nil}
+			if 0 < len(sh.key) {
+				tl = append(tl, []string{keyName(0), "v"})
+			}
+			for _, t := range tl {
+				emit(strings.Join(append(append([]string(nil), np...), t...), ","))
+			}
+		}
+		// (e) a declared key is given an explicit nil: alone, before and after another pair, and as the first of a duplicate
+		for ki := range sh.key {
+			k := keyName(ki)
+			other := keyName((ki + 1) % len(sh.key))
+			for _, t := range [][]string{{k, "n"}, {k, "n", other, "v"}, {other, "v", k, "n"}, {k, "n", k, "v"}, {k, "v", k, "n"}} {
+				emit(strings.Join(append(append([]string(nil), pos...), t...), ","))
+			}
+		}
 		// (c) one positional argument is itself a keyword naming a declared key (positional first!)
 		if 0 < len(sh.key) && 0 < p {
 			for j := 0; j < p; j++ {
